@@ -8,6 +8,8 @@ import ArcSwapModel.Tie.CacheMap
 import ArcSwapModel.Tie.CacheMapCacheLoad
 import ArcSwapModel.Tie.CacheAccessLoad
 import ArcSwapModel.Tie.LibLoadFull
+import ArcSwapModel.Tie.RwLoad
+import ArcSwapModel.Tie.HybridLoad
 
 /-!
 # C16 — Cache returns a current-or-newer value and retains at most one old value
